@@ -60,18 +60,18 @@ type Event struct {
 }
 
 type TraceRec struct {
-	T      int64    `json:"t"`
-	Pid    int      `json:"pid"`
-	Proc   string   `json:"proc"`
-	Seq    int64    `json:"seq"`
-	Name   string   `json:"name"`
-	Hit    int64    `json:"hit"`
-	Detail []string `json:"detail"`
-	Count  *int64   `json:"count"`
-	Size   *int64   `json:"size"`
-	Paths  []string `json:"paths"`
-	Crash  string   `json:"crash"`
-	RootDirSize *int64 `json:"root_dir_size"`
+	T           int64    `json:"t"`
+	Pid         int      `json:"pid"`
+	Proc        string   `json:"proc"`
+	Seq         int64    `json:"seq"`
+	Name        string   `json:"name"`
+	Hit         int64    `json:"hit"`
+	Detail      []string `json:"detail"`
+	Count       *int64   `json:"count"`
+	Size        *int64   `json:"size"`
+	Paths       []string `json:"paths"`
+	Crash       string   `json:"crash"`
+	RootDirSize *int64   `json:"root_dir_size"`
 }
 
 type Case struct {
@@ -127,17 +127,17 @@ func (c *Case) WriteSpec() error {
 }
 
 type RunOpts struct {
-	Race       bool
-	Args       []string // extra mrp args
-	Env        []string // extra env
-	Delays     string   // VERIF_DELAYS
-	Crash      string   // VERIF_CRASH
-	Inventory  bool
-	Seed       int64
-	Timeout    time.Duration
-	Strace     []string // if set, run under strace with these args
-	MroFile    string   // default main.mro
-	NoTrace    bool
+	Race      bool
+	Args      []string // extra mrp args
+	Env       []string // extra env
+	Delays    string   // VERIF_DELAYS
+	Crash     string   // VERIF_CRASH
+	Inventory bool
+	Seed      int64
+	Timeout   time.Duration
+	Strace    []string // if set, run under strace with these args
+	MroFile   string   // default main.mro
+	NoTrace   bool
 	// If > 0: stop the run early once the hook trace shows this many
 	// consecutive run-loop iterations without any state change (a logical
 	// stall); reported as TimedOut + Stalled.
@@ -145,15 +145,15 @@ type RunOpts struct {
 }
 
 type RunResult struct {
-	Exit      int
-	Signaled  bool
-	TimedOut  bool
-	Stalled   bool
-	Output    string
-	Wall      time.Duration
-	RaceLogs  []string
-	StartT    int64
-	EndT      int64
+	Exit     int
+	Signaled bool
+	TimedOut bool
+	Stalled  bool
+	Output   string
+	Wall     time.Duration
+	RaceLogs []string
+	StartT   int64
+	EndT     int64
 }
 
 // pyStub is the stage code of a Python probe stage.
